@@ -108,6 +108,10 @@ class Fn:
                 tg = term_targets(t)
                 if t["k"] == "switch":
                     v = _literal(self, t["d"])
+                    if v is not None and any(m.startswith("debug_assert") for m in self.macros(b["ts"])):
+                        # `if cfg!(debug_assertions) { assert!(..) }`: facts are extracted from a dev
+                        # build, but a guard must also hold in release: analyse with the assertion off
+                        v = 0
                     if v is not None:
                         hit = [x[1] for x in t["v"] if x[0] == v]
                         tg = hit[:1] if hit else [t["else"]]
@@ -938,6 +942,9 @@ def path_conditions(fn, bb):
         # s must be entered only through d (ignoring back edges from blocks s dominates)
         ps = [p for p in pred[s] if not fn.dominates(s, p)]
         if ps != [d] and set(ps) != {d}:
+            continue
+        # a test that only exists inside debug_assert!(..) proves nothing about release builds
+        if any(m.startswith("debug_assert") for m in fn.macros(fn.blocks[d]["ts"])):
             continue
         atoms = edge_atoms(fn, d).get(s)
         if atoms:
